@@ -73,7 +73,12 @@ type Record interface {
 
 // Add records the SAM record as having being located at the given chunk.
 func (i *Index) Add(r Record, bin uint32, c bgzf.Chunk, placed, mapped bool) error {
-	if !IsValidIndexPos(r.Start()) || !IsValidIndexPos(r.End()) {
+	// End is exclusive: the last base is at End()-1.
+	last := r.End() - 1
+	if last < r.Start() {
+		last = r.Start()
+	}
+	if !IsValidIndexPos(r.Start()) || !IsValidIndexPos(last) {
 		return errors.New("index: attempt to add record outside indexable range")
 	}
 
